@@ -90,9 +90,68 @@ def _canon_tree(tree: ast.AST) -> None:
       ``if not c: B else: A``  ->  ``if c: A else: B``   (elif chains are left alone)
       ``if x is not None: A else: B`` -> ``if x is None: B else: A``  (likewise ``!=``, ``not in``)
       ``a < b`` -> ``b > a`` and ``a <= b`` -> ``b >= a``
+      ``not (a == b)`` -> ``a != b`` (likewise ``is`` / ``in``), De Morgan with the negation inwards
+      ``x = x + 1`` -> ``x += 1``
+      ``if c: return A else: B`` -> ``if c: return A; B``  (an else after a branch that always leaves)
 
     (the inverses of "name the result before returning it", "name the condition before testing
     it" and "put the other branch first").  In place."""
+    # negation pushed inwards: `not (a == b)` -> `a != b`, `not (x is None)` -> `x is not None`,
+    # `not (a in b)` -> `a not in b`; `not (a or b)` -> `not a and not b`, `not (a and b)` ->
+    # `not a or not b`; `not not a` in a boolean position stays (bool conversion)
+    class _PushNot(ast.NodeTransformer):
+        _INV = {ast.Eq: ast.NotEq, ast.NotEq: ast.Eq, ast.Is: ast.IsNot, ast.IsNot: ast.Is, ast.In: ast.NotIn, ast.NotIn: ast.In}
+
+        def visit_UnaryOp(self, n):
+            self.generic_visit(n)
+            if isinstance(n.op, ast.Not):
+                o = n.operand
+                if isinstance(o, ast.Compare) and len(o.ops) == 1 and type(o.ops[0]) in self._INV:
+                    o.ops[0] = self._INV[type(o.ops[0])]()
+                    return o
+                if isinstance(o, ast.BoolOp):
+                    other = ast.And() if isinstance(o.op, ast.Or) else ast.Or()
+                    vals = [self.visit(ast.UnaryOp(op=ast.Not(), operand=v)) for v in o.values]
+                    return ast.copy_location(ast.BoolOp(op=other, values=vals), n)
+            return n
+
+    _PushNot().visit(tree)
+    ast.fix_missing_locations(tree)
+    # `x = x + 1` / `x = x - 1` (plain name, numeric constant) is written `x += 1` / `x -= 1`
+    for n in ast.walk(tree):
+        for fld in ("body", "orelse", "finalbody"):
+            blk = getattr(n, fld, None)
+            if isinstance(blk, list):
+                for i_, st in enumerate(blk):
+                    if isinstance(st, ast.Assign) and len(st.targets) == 1 and isinstance(st.targets[0], ast.Name) and isinstance(st.value, ast.BinOp) and isinstance(st.value.op, (ast.Add, ast.Sub)) and isinstance(st.value.left, ast.Name) and st.value.left.id == st.targets[0].id and isinstance(st.value.right, ast.Constant) and isinstance(st.value.right.value, (int, float)) and not isinstance(st.value.right.value, bool):
+                        blk[i_] = ast.copy_location(ast.AugAssign(target=ast.Name(id=st.targets[0].id, ctx=ast.Store()), op=st.value.op, value=st.value.right), st)
+    # an `else` after a branch that always leaves (return / raise / continue / break) is written
+    # without the else: `if c: return A else: B`  ->  `if c: return A; B`
+    def _always_leaves(body) -> bool:
+        if not body:
+            return False
+        last = body[-1]
+        if isinstance(last, (ast.Return, ast.Raise, ast.Continue, ast.Break)):
+            return True
+        if isinstance(last, ast.If):
+            return bool(last.orelse) and _always_leaves(last.body) and _always_leaves(last.orelse)
+        return False
+
+    changed = True
+    while changed:
+        changed = False
+        for n in ast.walk(tree):
+            for fld in ("body", "orelse", "finalbody"):
+                blk = getattr(n, fld, None)
+                if not (isinstance(blk, list) and blk and isinstance(blk[0], ast.stmt)):
+                    continue
+                for i_, st in enumerate(blk):
+                    if isinstance(st, ast.If) and st.orelse and _always_leaves(st.body):
+                        tail = st.orelse
+                        st.orelse = []
+                        blk[i_ + 1 : i_ + 1] = tail
+                        changed = True
+                        break
     # `a < b` is written `b > a`, `a <= b` as `b >= a` (single comparisons; for the analysis the
     # order in which the two operands are evaluated is immaterial)
     for n in ast.walk(tree):
